@@ -3203,12 +3203,6 @@ void Analyser::AnalyserImpl::analyseModel(const ModelPtr &model)
             }
         }
 
-        // Scale our internal equation's AST to take into account the fact that
-        // we may have mapped variables that use compatible units rather than
-        // equivalent ones.
-
-        scaleEquationAst(internalEquation->mAst);
-
         // Manipulate the equation, if needed.
 
         switch (type) {
@@ -3234,6 +3228,15 @@ void Analyser::AnalyserImpl::analyseModel(const ModelPtr &model)
 
             break;
         }
+
+        // Scale our internal equation's AST to take into account the fact that
+        // we may have mapped variables that use compatible units rather than
+        // equivalent ones.
+        // Note: this must be done once the equation has been manipulated since
+        //       the scaling relies on the computed variable/rate, if any, to be
+        //       on the LHS of the equation.
+
+        scaleEquationAst(internalEquation->mAst);
 
         // Determine the equation's dependencies, i.e. the equations for the
         // variables on which this equation depends.
